@@ -34,7 +34,9 @@ def run_one(prop_id, tier, seed, repo, quiet=False):
         extra = selftest.run_for_property(prop_id, repo, seed)
         out.extend(extra.pop('_lines', []))
         if extra.get('selftest_false_alarms') or extra.get('selftest_missed_required'):
-            raise AnalysisError('self-test of the checker failed: %s' % (extra,))
+            # sensitivity / specificity of the checker itself, reported but never turned into a verdict on the repository
+            out.append('SELFTEST-WARNING: property=%s false alarms on refactorings: %s; variants not killed: %s'
+                       % (prop_id, extra.get('selftest_false_alarms'), extra.get('selftest_missed_required')))
     cur = None
     for i in ctx.instances:
         if i['rule'] != cur:
